@@ -168,3 +168,13 @@ impl<K, V, S> HashMap<K, V, S> {
         std::cmp::max(stride as isize, MIN_TRANSFER_STRIDE)
     }
 }
+
+impl<K, V, S> HashMap<K, V, S>
+where
+    S: std::hash::BuildHasher,
+{
+    /// The hash this map computes for `key`.
+    pub fn verif_hash<Q: ?Sized + std::hash::Hash>(&self, key: &Q) -> u64 {
+        self.build_hasher.hash_one(key)
+    }
+}
